@@ -15,7 +15,8 @@ import tempfile
 HERE = os.path.dirname(os.path.dirname(os.path.abspath(__file__)))
 REVERTED = {'D1-customs-not-restored': ['C12', 'C08'], 'D2-imported-memory64': ['C04'], 'D3-memarg-offset': ['C03'],
             'D4-rmw8': ['C03'], 'D5-externref-elems': ['C06'], 'D6-visitmut-double': ['C16'], 'D7-local-names-dropped': ['C13'],
-            'D8-code-section-start': ['C11'], 'D9-dwarf5-file0': ['C10'], 'D11-ops-after-final-end': ['C05']}
+            'D8-code-section-start': ['C11'], 'D9-dwarf5-file0': ['C10'], 'D11-ops-after-final-end': ['C05'],
+            'D12-ref-func-undeclared': ['C06', 'C02']}
 
 
 def cases():
